@@ -366,7 +366,16 @@ def dist_factor(prog, rep, L, res_call, res_si) -> None:
         # if/else statement form: find the two stores
         raw = v
         if isinstance(raw, ast.Name):
-            stores = [s for s in ff.order if isinstance(s.stmt, ast.Assign) and any(isinstance(t, ast.Name) and t.id == raw.id for t in s.stmt.targets)]
+            def leaf_stores(nm, depth=0):
+                out_ = []
+                for s in ff.order:
+                    if isinstance(s.stmt, ast.Assign) and any(isinstance(t, ast.Name) and t.id == nm for t in s.stmt.targets):
+                        if isinstance(s.stmt.value, ast.Name) and depth < 4:
+                            out_ += leaf_stores(s.stmt.value.id, depth + 1)     # a plain copy: follow it
+                        else:
+                            out_.append(s)
+                return out_
+            stores = leaf_stores(raw.id)
             g1 = g2 = False
             for s in stores:
                 rvv = ff.resolved(s.stmt, s.stmt.value)
@@ -380,6 +389,9 @@ def dist_factor(prog, rep, L, res_call, res_si) -> None:
         if isinstance(q.stmt, ast.Assert) and q.index < res_si.index:
             t = U(ff.resolved(q.stmt, q.stmt.test))
             if f"{D} <= {P}" in t:
+                asserted = True
+            # split form: `if not P >= D: assert np.isclose(P, D)`
+            if ("<", P, D) in q.facts and t in (f"np.isclose({P}, {D})", f"np.isclose({D}, {P})"):
                 asserted = True
     rep.check(ok_shape and guard and asserted, "dist-factor-shape", sv.qualname, "dist_factor",
               f"dist_factor is path_length/direct_distance where the distance is non-zero and a literal >= 1 otherwise, after asserting path_length >= direct_distance "
